@@ -5,6 +5,7 @@ cd "$(dirname "$0")/.."
 P=${1:-3}; RX=${2:-.}
 one() {
   d=$1; name=$(basename $d); id=${name%-*}
+  o=$(jq -r '.caught_by_check // empty' "/verif/$d/meta.json"); [ -n "$o" ] && id=$o   # change written against one property, decided by the check of the property it violates
   S=/tmp/reseed-$name-$$
   rsync -a --exclude .git /repo/ "$S/" || { echo "$name ERROR rsync"; return; }
   if ! (cd "$S" && patch -p1 -s --no-backup-if-mismatch < "/verif/$d/patch.diff" >/dev/null 2>&1); then echo "$name PATCH-DOES-NOT-APPLY (lattigo changed underneath)"; rm -rf "$S"; return; fi
